@@ -55,6 +55,14 @@ Section Interpretation.
     abs tree cache flush recv = abs tree cache flush s /\
     res = fst (run tree cache populate flush edit mut cond_tree cond_cache k (abs tree cache flush s, None)).
   Proof. exact (copy_ok tree cache populate flush edit mut cond_tree cond_cache k s). Qed.
+
+  (* a method accepted by the freshness analysis never flushes, edits, reads or returns a cache
+     whose elements a tree mutation may have detached (e.g. a forgotten `self.elements = None`) *)
+  Theorem C15_no_stale_cache k s :
+    wf_fresh (has_cache tree cache s) false k = true ->
+    let '(_, stale', used') := run_g tree cache populate flush edit mut cond_tree cond_cache k s false false in
+    stale' = false /\ used' = false.
+  Proof. exact (fun H => fresh_sound tree cache populate flush edit mut cond_tree cond_cache k s false false H eq_refl). Qed.
 End Interpretation.
 
 (* non-vacuity: the laws are satisfiable by a non-trivial interpretation (tree = list of optional
@@ -67,5 +75,5 @@ Example C15_nonvacuous :
         sk_round_floats ([1; 2], None))) = [2; 3].
 Proof. cbn. repeat split. Qed.
 
-Definition C15_all := (C15_table_ok, C15_apply_style_attributes_refuted, C15_operation_commutes_with_reparse, C15_history_coherent, C15_copy_leaves_receiver).
+Definition C15_all := (C15_table_ok, C15_apply_style_attributes_refuted, C15_operation_commutes_with_reparse, C15_history_coherent, C15_copy_leaves_receiver, C15_no_stale_cache).
 Print Assumptions C15_all.
